@@ -175,7 +175,7 @@ func applyEdits(text string, edits []edit) string {
 	return sb.String()
 }
 
-var cRw = vt.New("C08", "json-rewrite")
+var cRw = newC("json-rewrite")
 
 // nameEnums gives enum fields a named value now and then (pgen mostly draws
 // arbitrary int32s, which have no name).
@@ -347,5 +347,5 @@ func runRwInner(s RwScript) (bool, string, *vt.Finding) {
 }
 
 func TestJSONRewrite(t *testing.T) {
-	vt.Run(t, cRw, vt.N(3000, 200000), genRw, runRw)
+	vt.Run(t, cRw, vt.N(12000, 400000), genRw, runRw)
 }
